@@ -101,10 +101,11 @@ type ICase struct {
 }
 
 type env struct {
-	ctx *decoder.Ctx
-	obj *testobj.TestObject
-	st  *testobj.TestObject
-	ts  *testobj.TestStruct
+	trees map[string]*decoder.Tree
+	ctx   *decoder.Ctx
+	obj   *testobj.TestObject
+	st    *testobj.TestObject
+	ts    *testobj.TestStruct
 }
 
 // freshObjects replaces the destination and source objects (every job works on
@@ -184,10 +185,20 @@ func classify(err error) string {
 func (e *env) runJob(j *Job) (Obs, string, error) {
 	registerUserFuncs()
 	var o Obs
-	tree, perr := decoder.Parse([]byte(j.Prog))
-	if perr != nil {
-		o.ParseErr = perr.Error()
-		return o, "", fmt.Errorf("program rejected by Parse: %v\n%s", perr, j.Prog)
+	// a decoder is parsed once and used for many jobs: the same text on the same
+	// environment reuses the tree it was parsed to
+	if e.trees == nil {
+		e.trees = map[string]*decoder.Tree{}
+	}
+	tree := e.trees[j.Prog]
+	if tree == nil {
+		var perr error
+		tree, perr = decoder.Parse([]byte(j.Prog))
+		if perr != nil {
+			o.ParseErr = perr.Error()
+			return o, "", fmt.Errorf("program rejected by Parse: %v\n%s", perr, j.Prog)
+		}
+		e.trees[j.Prog] = tree
 	}
 	dump := decoder.VerifDumpTree(tree)
 	e.freshObjects()
